@@ -1282,15 +1282,38 @@ func (it *mapIter) next(m *Machine) Value {
 }
 
 type strIter struct {
-	s   Str
-	pos int
+	s       Str
+	pos     int
+	lazyAt  int   // >=0: the width of the rune at this position is not resolved yet
+	lazyR   *Term // the rune variable handed out for it
 }
 
+// next implements range-over-string. For a symbolic non-ASCII lead byte the rune
+// is handed out as a variable R >= 0x80 and the (forking) UTF-8 decoding is
+// postponed until the position of the following rune is needed; loops that stop
+// at the first non-ASCII rune (MatchDigit, MatchWord, validOptionalPort) never
+// pay for it. R is tied to the bytes when the width is resolved.
 func (it *strIter) next(m *Machine) Value {
+	if it.lazyAt >= 0 {
+		r, w := m.decodeRune(it.s, it.lazyAt)
+		m.addPC(tEq(it.lazyR, r.term(32)))
+		it.pos = it.lazyAt + w
+		it.lazyAt = -1
+	}
 	if it.pos >= len(it.s.S) {
 		return Tuple{Bool{B: false}, Int{}, Int{}}
 	}
 	p := it.pos
+	if lead := it.s.at(p); lead.T != nil {
+		if m.branch(mkBool(tBin("bvult", 0, lead.T, bvConst(0x80, 8)))) {
+			it.pos++
+			return Tuple{Bool{B: true}, Int{V: uint64(p)}, Int{T: mk("zext", 32, "", 24, lead.T)}}
+		}
+		R := m.freshVar("rune", 32)
+		m.addPC(tAnd(tBin("bvuge", 0, R, bvConst(0x80, 32)), tBin("bvule", 0, R, bvConst(0x10ffff, 32))))
+		it.lazyAt, it.lazyR = p, R
+		return Tuple{Bool{B: true}, Int{V: uint64(p)}, Int{T: R}}
+	}
 	r, w := m.decodeRune(it.s, p)
 	it.pos += w
 	return Tuple{Bool{B: true}, Int{V: uint64(p)}, r}
@@ -1300,7 +1323,7 @@ func (m *Machine) rangeIter(fr *frame, in *ssa.Range) Value {
 	x := m.get(fr, in.X)
 	switch a := x.(type) {
 	case Str:
-		return &strIter{s: a}
+		return &strIter{s: a, lazyAt: -1}
 	case *Map:
 		it := &mapIter{}
 		if a != nil {
